@@ -496,7 +496,13 @@ pub fn c04_visit(ctx: &StateCtx, acc: &mut Acc) {
 
 pub fn c11_visit(ctx: &StateCtx, acc: &mut Acc) {
     let want_moves = ctx.pos.legal_uci_sorted();
-    for (how, mut g) in games(ctx, acc, false) {
+    // the reached game both ways: push only, and push_history (the game record grows: the move counters of the
+    // exported text count its plies - three digits from move 100 on)
+    let mut all = games(ctx, acc, false);
+    if ctx.root.is_some() && !ctx.path.is_empty() {
+        all.extend(games(ctx, acc, true).into_iter().filter(|(how, _)| *how == "reached").map(|(_, g)| ("reached by push_history", g)));
+    }
+    for (how, mut g) in all {
         acc.evaluations += 1;
         let fen = g.fen();
         let f: Vec<&str> = fen.split(' ').collect();
